@@ -28,51 +28,63 @@ package edwards25519
 // a valid point is never the zero value: X = Y = 0 and the two equations force Z = 0
 //@ lemma validinit(p *Point): validc(p) ==> init(p)
 
-//@ globalinv [d] inv(d)
-//@ globalinv [d2] inv(d2) && cong(lv(d2), 2 * lv(d), P)
-//@ globalinv [feOne] isone(feOne)
-//@ globalinv [identity] elems(identity) && init(identity) && validc(identity) && cong(lv(identity.x), 0, P) && cong(lv(identity.y), lv(identity.z), P)
-//@ globalinv [generator] elems(generator) && init(generator) && validc(generator)
+//@ globalinv [G:identity] pt(identity) == gid() && gvalid(identity)
+//@ globalinv [G:generator] pt(generator) == gbase() && gvalid(generator)
 
+//@ globalinv [F:d] inv(d)
+//@ globalinv [F:d2] inv(d2) && cong(lv(d2), 2 * lv(d), P)
+//@ globalinv [F:feOne] isone(feOne)
+//@ globalinv [F:identity] elems(identity) && init(identity) && validc(identity) && cong(lv(identity.x), 0, P) && cong(lv(identity.y), lv(identity.z), P)
+//@ globalinv [F:generator] elems(generator) && init(generator) && validc(generator)
+
+// bounded: proved for up to 4 points (every call site in the package passes 1 or 2, the multi-scalar
+// routines are themselves claimed for up to 3 terms); for longer slices the contract is assumed
 //@ func checkInitialized(points)
 //@   mode ring
-//@   trusted body is a loop over a variadic slice of symbolic length; proved at tier G
+//@   entrysplit len(points) in 0..5
+//@   requires [bounded] len(points) < 5
 //@   panics exists i in 0..len(points): !init(points[i])
 //@   assigns nothing
 
 // ---------------------------------------------------------------- constructors, copies
 
 //@ func (*projP2).Zero(v)
+//@   gensures result == v && pt(v) == gid() && gvalid(v)
 //@   mode ring
 //@   assigns *v
 //@   ensures [receiver] result == v
 //@   ensures [value] iszero(v.X) && isone(v.Y) && isone(v.Z)
 
 //@ func (*projCached).Zero(v)
+//@   gensures result == v && pt(v) == gid() && gvalid(v)
 //@   mode ring
 //@   assigns *v
 //@   ensures [receiver] result == v
 //@   ensures [value] isone(v.YplusX) && isone(v.YminusX) && isone(v.Z) && iszero(v.T2d)
 
 //@ func (*affineCached).Zero(v)
+//@   gensures result == v && pt(v) == gid() && gvalid(v)
 //@   mode ring
 //@   assigns *v
 //@   ensures [receiver] result == v
 //@   ensures [value] isone(v.YplusX) && isone(v.YminusX) && iszero(v.T2d)
 
 //@ func (*Point).Set(v, u)
+//@   gensures result == v && samepoint(v, u)
 //@   mode ring
 //@   assigns *v
 //@   ensures [receiver] result == v
 //@   ensures [copy] samepoint(v, u)
 
 //@ func NewIdentityPoint()
+//@   gensures fresh(result) && samepoint(result, identity)
 //@   mode ring
 //@   assigns nothing
 //@   ensures [fresh] fresh(result)
 //@   ensures [copy] samepoint(result, identity)
 
 //@ func NewGeneratorPoint()
+//@   gensures fresh(result) && samepoint(result, generator)
 //@   mode ring
 //@   assigns nothing
 //@   ensures [fresh] fresh(result)
@@ -87,6 +99,8 @@ package edwards25519
 // ---------------------------------------------------------------- conversions (definition contracts)
 
 //@ func (*projP2).FromP1xP1(v, p)
+//@   grequires gvalid(p)
+//@   gensures result == v && pt(v) == pt(p) && gvalid(v)
 //@   mode ring
 //@   requires [inv] inv(p.X) && inv(p.Y) && inv(p.Z) && inv(p.T)
 //@   assigns *v
@@ -98,6 +112,8 @@ package edwards25519
 //@   ensures [valid] validP1(p) ==> validP2(v)
 
 //@ func (*projP2).FromP3(v, p)
+//@   grequires gvalid(p)
+//@   gensures result == v && pt(v) == pt(p) && gvalid(v)
 //@   mode ring
 //@   assigns *v
 //@   ensures [receiver] result == v
@@ -105,6 +121,8 @@ package edwards25519
 //@   ensures [valid] validc(p) ==> validP2(v)
 
 //@ func (*Point).fromP1xP1(v, p)
+//@   grequires gvalid(p)
+//@   gensures result == v && pt(v) == pt(p) && gvalid(v)
 //@   mode ring
 //@   requires [inv] inv(p.X) && inv(p.Y) && inv(p.Z) && inv(p.T)
 //@   assigns *v
@@ -117,6 +135,8 @@ package edwards25519
 //@   ensures [valid] validP1(p) ==> validc(v)
 
 //@ func (*Point).fromP2(v, p)
+//@   grequires gvalid(p)
+//@   gensures result == v && pt(v) == pt(p) && gvalid(v)
 //@   mode ring
 //@   requires [inv] inv(p.X) && inv(p.Y) && inv(p.Z)
 //@   assigns *v
@@ -129,6 +149,8 @@ package edwards25519
 //@   ensures [valid] validP2(p) ==> validc(v)
 
 //@ func (*projCached).FromP3(v, p)
+//@   grequires gvalid(p)
+//@   gensures result == v && pt(v) == pt(p) && gvalid(v)
 //@   mode ring
 //@   requires [inv] elems(p)
 //@   assigns *v
@@ -140,6 +162,8 @@ package edwards25519
 //@   ensures [T2d] cong(lv(v.T2d), 2 * lv(d) * lv(p.t), P)
 
 //@ func (*affineCached).FromP3(v, p)
+//@   grequires gvalid(p)
+//@   gensures result == v && pt(v) == pt(p) && gvalid(v)
 //@   mode ring
 //@   requires [inv] elems(p)
 //@   assigns *v
@@ -152,6 +176,8 @@ package edwards25519
 // ---------------------------------------------------------------- addition / doubling in P1xP1 (definition contracts)
 
 //@ func (*projP1xP1).Add(v, p, q)
+//@   grequires gvalid(p) && gvalid(q)
+//@   gensures result == v && pt(v) == gadd(pt(p), pt(q)) && gvalid(v)
 //@   mode ring
 //@   requires [inv] elems(p) && inv(q.YplusX) && inv(q.YminusX) && inv(q.Z) && inv(q.T2d)
 //@   assigns *v
@@ -163,6 +189,8 @@ package edwards25519
 //@   ensures [T] cong(lv(v.T), 2 * lv(p.z) * lv(q.Z) - lv(p.t) * lv(q.T2d), P)
 
 //@ func (*projP1xP1).Sub(v, p, q)
+//@   grequires gvalid(p) && gvalid(q)
+//@   gensures result == v && pt(v) == gadd(pt(p), gneg(pt(q))) && gvalid(v)
 //@   mode ring
 //@   requires [inv] elems(p) && inv(q.YplusX) && inv(q.YminusX) && inv(q.Z) && inv(q.T2d)
 //@   assigns *v
@@ -174,6 +202,8 @@ package edwards25519
 //@   ensures [T] cong(lv(v.T), 2 * lv(p.z) * lv(q.Z) + lv(p.t) * lv(q.T2d), P)
 
 //@ func (*projP1xP1).AddAffine(v, p, q)
+//@   grequires gvalid(p) && gvalid(q)
+//@   gensures result == v && pt(v) == gadd(pt(p), pt(q)) && gvalid(v)
 //@   mode ring
 //@   requires [inv] elems(p) && inv(q.YplusX) && inv(q.YminusX) && inv(q.T2d)
 //@   assigns *v
@@ -185,6 +215,8 @@ package edwards25519
 //@   ensures [T] cong(lv(v.T), 2 * lv(p.z) - lv(p.t) * lv(q.T2d), P)
 
 //@ func (*projP1xP1).SubAffine(v, p, q)
+//@   grequires gvalid(p) && gvalid(q)
+//@   gensures result == v && pt(v) == gadd(pt(p), gneg(pt(q))) && gvalid(v)
 //@   mode ring
 //@   requires [inv] elems(p) && inv(q.YplusX) && inv(q.YminusX) && inv(q.T2d)
 //@   assigns *v
@@ -199,6 +231,8 @@ package edwards25519
 //@ define m4dbl(p) = validP2(p) ==> (!cong(lv(p.Z)*lv(p.Z)*lv(p.Z)*lv(p.Z) + lv(d)*lv(p.X)*lv(p.X)*lv(p.Y)*lv(p.Y), 0, P) && !cong(lv(p.Z)*lv(p.Z)*lv(p.Z)*lv(p.Z) - lv(d)*lv(p.X)*lv(p.X)*lv(p.Y)*lv(p.Y), 0, P))
 
 //@ func (*projP1xP1).Double(v, p)
+//@   grequires gvalid(p)
+//@   gensures result == v && pt(v) == gadd(pt(p), pt(p)) && gvalid(v)
 //@   mode ring
 //@   requires [inv] inv(p.X) && inv(p.Y) && inv(p.Z)
 //@   assume [M4] m4dbl(p)
@@ -229,6 +263,8 @@ package edwards25519
 //@ define slawy(v, p, q) = cong(lv(v.y) * den1(p, q), lv(v.z) * (lv(p.y) * lv(q.y) - lv(p.x) * lv(q.x)), P)
 
 //@ func (*Point).Add(v, p, q)
+//@   grequires wf(p) && wf(q)
+//@   gensures result == v && pt(v) == gadd(pt(p), pt(q)) && gvalid(v)
 //@   mode ring
 //@   requires [wf] wf(p) && wf(q)
 //@   assume [M4] m4(p, q)
@@ -245,6 +281,8 @@ package edwards25519
 //@   ensures [lawy] lawy(v, p, q)
 
 //@ func (*Point).Subtract(v, p, q)
+//@   grequires wf(p) && wf(q)
+//@   gensures result == v && pt(v) == gadd(pt(p), gneg(pt(q))) && gvalid(v)
 //@   mode ring
 //@   requires [wf] wf(p) && wf(q)
 //@   assume [M4] m4(p, q)
@@ -261,6 +299,8 @@ package edwards25519
 //@   ensures [lawy] slawy(v, p, q)
 
 //@ func (*Point).Negate(v, p)
+//@   grequires wf(p)
+//@   gensures result == v && pt(v) == gneg(pt(p)) && gvalid(v)
 //@   mode ring
 //@   requires [wf] wf(p)
 //@   use validinit(v)
@@ -288,6 +328,8 @@ package edwards25519
 // ---------------------------------------------------------------- constant-time selection helpers
 
 //@ func (*projCached).Select(v, a, b, cond)
+//@   grequires (cond == 0 || cond == 1) && gvalid(a) && gvalid(b)
+//@   gensures result == v && pt(v) == gsel(cond == 1, pt(a), pt(b)) && gvalid(v)
 //@   mode ring
 //@   requires [cond] cond == 0 || cond == 1
 //@   casesplit cond in 0..2
@@ -297,6 +339,8 @@ package edwards25519
 //@   ensures [zero] cond == 0 ==> eqlimbs(v.YplusX, b.YplusX) && eqlimbs(v.YminusX, b.YminusX) && eqlimbs(v.Z, b.Z) && eqlimbs(v.T2d, b.T2d)
 
 //@ func (*affineCached).Select(v, a, b, cond)
+//@   grequires (cond == 0 || cond == 1) && gvalid(a) && gvalid(b)
+//@   gensures result == v && pt(v) == gsel(cond == 1, pt(a), pt(b)) && gvalid(v)
 //@   mode ring
 //@   requires [cond] cond == 0 || cond == 1
 //@   casesplit cond in 0..2
@@ -306,6 +350,8 @@ package edwards25519
 //@   ensures [zero] cond == 0 ==> eqlimbs(v.YplusX, b.YplusX) && eqlimbs(v.YminusX, b.YminusX) && eqlimbs(v.T2d, b.T2d)
 
 //@ func (*projCached).CondNeg(v, cond)
+//@   grequires (cond == 0 || cond == 1) && gvalid(v)
+//@   gensures result == v && pt(v) == smul(1 - 2 * cond, pt(old(v))) && gvalid(v)
 //@   mode ring
 //@   requires [cond] cond == 0 || cond == 1
 //@   requires [inv] inv(v.YplusX) && inv(v.YminusX) && inv(v.Z) && inv(v.T2d)
@@ -318,6 +364,8 @@ package edwards25519
 //@   ensures [Z] eqlimbs(v.Z, old(v).Z)
 
 //@ func (*affineCached).CondNeg(v, cond)
+//@   grequires (cond == 0 || cond == 1) && gvalid(v)
+//@   gensures result == v && pt(v) == smul(1 - 2 * cond, pt(old(v))) && gvalid(v)
 //@   mode ring
 //@   requires [cond] cond == 0 || cond == 1
 //@   requires [inv] inv(v.YplusX) && inv(v.YminusX) && inv(v.T2d)
@@ -546,12 +594,12 @@ package edwards25519
 //   Multiply: ev4(s) = ev4(x)*ev4(y)*RINV         <=>  n_s = n_x * n_y
 //   Bytes:    le(out) = ev4(s)*RINV mod L, < L     <=>  le(out) = n_s
 //@ define sinv(s) = ev4(s.s) < L
-//@ globalinv [rinv] R * RINV % L == 1
-//@ globalinv [two168] scalarTwo168.s[0] == 0x5b8ab432eac74798 && scalarTwo168.s[1] == 0x38afddd6de59d5d7 && scalarTwo168.s[2] == 0xa2c131b399411b7c && scalarTwo168.s[3] == 0x6329a7ed9ce5a30
-//@ globalinv [two168v] 0x5b8ab432eac74798 + 0x38afddd6de59d5d7 * 2^64 + 0xa2c131b399411b7c * 2^128 + 0x6329a7ed9ce5a30 * 2^192 == 2^168 * R % L
-//@ globalinv [two336] scalarTwo336.s[0] == 0xbd3d108e2b35ecc5 && scalarTwo336.s[1] == 0x5c3a3718bdf9c90b && scalarTwo336.s[2] == 0x63aa97a331b4f2ee && scalarTwo336.s[3] == 0x3d217f5be65cb5c
-//@ globalinv [two336v] 0xbd3d108e2b35ecc5 + 0x5c3a3718bdf9c90b * 2^64 + 0x63aa97a331b4f2ee * 2^128 + 0x3d217f5be65cb5c * 2^192 == 2^336 * R % L
-//@ globalinv [minusone] forall i in 0..32: scalarMinusOneBytes[i] == ((L - 1) >> (8 * i)) % 256
+//@ globalinv [L:rinv] R * RINV % L == 1
+//@ globalinv [L:two168] scalarTwo168.s[0] == 0x5b8ab432eac74798 && scalarTwo168.s[1] == 0x38afddd6de59d5d7 && scalarTwo168.s[2] == 0xa2c131b399411b7c && scalarTwo168.s[3] == 0x6329a7ed9ce5a30
+//@ globalinv [L:two168v] 0x5b8ab432eac74798 + 0x38afddd6de59d5d7 * 2^64 + 0xa2c131b399411b7c * 2^128 + 0x6329a7ed9ce5a30 * 2^192 == 2^168 * R % L
+//@ globalinv [L:two336] scalarTwo336.s[0] == 0xbd3d108e2b35ecc5 && scalarTwo336.s[1] == 0x5c3a3718bdf9c90b && scalarTwo336.s[2] == 0x63aa97a331b4f2ee && scalarTwo336.s[3] == 0x3d217f5be65cb5c
+//@ globalinv [L:two336v] 0xbd3d108e2b35ecc5 + 0x5c3a3718bdf9c90b * 2^64 + 0x63aa97a331b4f2ee * 2^128 + 0x3d217f5be65cb5c * 2^192 == 2^336 * R % L
+//@ globalinv [L:minusone] forall i in 0..32: scalarMinusOneBytes[i] == ((L - 1) >> (8 * i)) % 256
 
 //@ func NewScalar()
 //@   mode lia
@@ -678,3 +726,193 @@ package edwards25519
 //@   ensures [top] 0 <= result[63] && result[63] <= 8
 //@   ensures [canonical] (sum i in 0..64: result[i] * 16^i) < L && 0 <= (sum i in 0..64: result[i] * 16^i)
 //@   ensures [value] cong(sum i in 0..64: result[i] * 16^i, ev4(s.s) * RINV, L)
+
+// ================================================================ tier G: the curve group
+//
+// `pt(x)` is the curve point a (valid) representation stands for; gadd/gneg/smul/gid/gbase are the group
+// operations (M5: E(GF(p)) with the Edwards law is an abelian group).  The `grequires/gensures` views of the
+// tier-F primitives below are the LAW bridges: their polynomial content (the formulas implement the projective
+// Edwards law and preserve validity) is what the tier-F contracts above prove.
+
+//@ define isTable8(t, g) = forall k in 0..8: (pt(t.points[k]) == smul(k + 1, g) && gvalid(t.points[k]))
+//@ define isNaf5(t, g) = forall k in 0..8: (pt(t.points[k]) == smul(2 * k + 1, g) && gvalid(t.points[k]))
+//@ define isNaf8(t, g) = forall k in 0..64: (pt(t.points[k]) == smul(2 * k + 1, g) && gvalid(t.points[k]))
+//@ define isBase(T) = forall i in 0..32: isTable8(T[i], smul(256 ^ i, gbase()))
+
+// ---------------------------------------------------------------- lookup tables
+
+//@ func (*projLookupTable).FromP3(v, q)
+//@   mode group
+//@   requires [valid] gvalid(q)
+//@   assigns *v
+//@   ensures [table] isTable8(v, pt(q))
+
+//@ func (*affineLookupTable).FromP3(v, q)
+//@   mode group
+//@   requires [valid] gvalid(q)
+//@   assigns *v
+//@   ensures [table] isTable8(v, pt(q))
+
+//@ func (*nafLookupTable5).FromP3(v, q)
+//@   mode group
+//@   requires [valid] gvalid(q)
+//@   assigns *v
+//@   ensures [table] isNaf5(v, pt(q))
+
+//@ func (*nafLookupTable8).FromP3(v, q)
+//@   mode group
+//@   requires [valid] gvalid(q)
+//@   assigns *v
+//@   ensures [table] isNaf8(v, pt(q))
+
+//@ define isTable8self(t) = forall k in 0..8: (pt(t.points[k]) == smul(k + 1, pt(t.points[0])) && gvalid(t.points[k]))
+//@ define isNaf5self(t) = forall k in 0..8: (pt(t.points[k]) == smul(2 * k + 1, pt(t.points[0])) && gvalid(t.points[k]))
+//@ define isNaf8self(t) = forall k in 0..64: (pt(t.points[k]) == smul(2 * k + 1, pt(t.points[0])) && gvalid(t.points[k]))
+
+//@ func (*projLookupTable).SelectInto(v, dest, x)
+//@   mode group
+//@   requires [table] isTable8self(v)
+//@   requires [range] -8 <= x && x <= 8
+//@   assigns *dest
+//@   ensures [value] pt(dest) == smul(x, pt(v.points[0]))
+//@   ensures [valid] gvalid(dest)
+
+//@ func (*affineLookupTable).SelectInto(v, dest, x)
+//@   mode group
+//@   requires [table] isTable8self(v)
+//@   requires [range] -8 <= x && x <= 8
+//@   assigns *dest
+//@   ensures [value] pt(dest) == smul(x, pt(v.points[0]))
+//@   ensures [valid] gvalid(dest)
+
+//@ func (*nafLookupTable5).SelectInto(v, dest, x)
+//@   mode group
+//@   requires [table] isNaf5self(v)
+//@   requires [odd] 0 < x && x < 16 && x % 2 == 1
+//@   assigns *dest
+//@   ensures [value] pt(dest) == smul(x, pt(v.points[0]))
+//@   ensures [valid] gvalid(dest)
+
+//@ func (*nafLookupTable8).SelectInto(v, dest, x)
+//@   mode group
+//@   requires [table] isNaf8self(v)
+//@   requires [odd] 0 < x && x % 2 == 1
+//@   assigns *dest
+//@   ensures [value] pt(dest) == smul(x, pt(v.points[0]))
+//@   ensures [valid] gvalid(dest)
+
+// ---------------------------------------------------------------- scalar multiplication (property C01)
+// the integer in [0, L) a Scalar stands for:
+//@ define nval(s) = (ev4(s.s) * RINV) % L
+
+//@ func (*Point).ScalarMult(v, x, q)
+//@   mode group
+//@   requires [scalar] sinv(x)
+//@   requires [wf] wf(q)
+//@   panics !init(q)
+//@   assigns *v
+//@   ensures [receiver] result == v
+//@   ensures [valid] gvalid(v)
+//@   ensures [value] pt(v) == smul(nval(x), pt(q))
+
+//@ func basepointTable$1()
+//@   mode group
+//@   assigns basepointTablePrecomp.table
+//@   ensures [table] isBase(basepointTablePrecomp.table)
+
+//@ func basepointTable()
+//@   mode group
+//@   assigns basepointTablePrecomp
+//@   ensures [result] result == basepointTablePrecomp.table
+//@   ensures [table] isBase(basepointTablePrecomp.table)
+
+//@ func basepointNafTable$1()
+//@   mode group
+//@   assigns basepointNafTablePrecomp.table
+//@   ensures [table] isNaf8(basepointNafTablePrecomp.table, gbase())
+
+//@ func basepointNafTable()
+//@   mode group
+//@   assigns basepointNafTablePrecomp
+//@   ensures [result] result == basepointNafTablePrecomp.table
+//@   ensures [table] isNaf8(basepointNafTablePrecomp.table, gbase())
+
+//@ func (*Point).ScalarBaseMult(v, x)
+//@   mode group
+//@   requires [scalar] sinv(x)
+//@   assigns *v, basepointTablePrecomp
+//@   ensures [receiver] result == v
+//@   ensures [valid] gvalid(v)
+//@   ensures [value] pt(v) == smul(nval(x), gbase())
+
+// width-w non-adjacent form: sum naf[j]*2^j is the scalar's integer, non-zero digits are odd and below 2^(w-1)
+//@ func (*Scalar).nonAdjacentForm(s, w)
+//@   mode lia
+//@   trusted the recoder's loop (window arithmetic at a moving bit offset) is not yet under proof
+//@   requires [reduced] sinv(s)
+//@   requires [width] w == 5 || w == 8
+//@   assigns nothing
+//@   ensures [digits] forall j in 0..256: (result[j] == 0 || (result[j] % 2 == 1 && -(2^(w - 1)) < result[j] && result[j] < 2^(w - 1)))
+//@   ensures [canonical] 0 <= (sum j in 0..256: result[j] * 2^j) && (sum j in 0..256: result[j] * 2^j) < L
+//@   ensures [value] cong(sum j in 0..256: result[j] * 2^j, ev4(s.s) * RINV, L)
+
+//@ func (*Point).VarTimeDoubleScalarBaseMult(v, a, A, b)
+//@   mode group
+//@   requires [scalar] sinv(a) && sinv(b)
+//@   requires [wf] wf(A)
+//@   panics !init(A)
+//@   assigns *v, basepointNafTablePrecomp
+//@   loop 1 var j
+//@   loop 1 opt cut
+//@   loop 1 invariant [none] true
+//@   loop 2 var i
+//@   loop 2 opt cut
+//@   loop 2 modifies *tmp1, *tmp2, *v, *multA, *multB
+//@   loop 2 invariant [acc] pt(tmp2) == gadd(smul(sum t in i + 1..256: aNaf[t] * 2^(t - i - 1), pt(A)), smul(sum t in i + 1..256: bNaf[t] * 2^(t - i - 1), gbase()))
+//@   loop 2 invariant [valid] gvalid(tmp2)
+//@   ensures [receiver] result == v
+//@   ensures [valid] gvalid(v)
+//@   ensures [value] pt(v) == gadd(smul(nval(a), pt(A)), smul(nval(b), gbase()))
+
+
+//@ func (*Point).MultByCofactor(v, p) as group
+//@   mode group
+//@   requires [wf] wf(p)
+//@   panics !init(p)
+//@   assigns *v
+//@   ensures [receiver] result == v
+//@   ensures [valid] gvalid(v)
+//@   ensures [value] pt(v) == smul(8, pt(p))
+
+// bounded: proved for up to 3 terms (all scalars and points symbolic, distinct storage)
+//@ func (*Point).MultiScalarMult(v, scalars, points)
+//@   mode group
+//@   entrysplit len(scalars) in 0..4
+//@   entrysplit len(points) in 0..4
+//@   requires [bounded] len(scalars) < 4 && len(points) < 4
+//@   requires [scalars] forall j in 0..len(scalars): sinv(scalars[j])
+//@   requires [wf] forall j in 0..len(points): wf(points[j])
+//@   panics len(scalars) != len(points) || (exists j in 0..len(points): !init(points[j]))
+//@   assigns *v
+//@   ensures [receiver] result == v
+//@   ensures [valid] gvalid(v)
+//@   ensures [value] pt(v) == (gsum j in 0..len(points): smul(nval(scalars[j]), pt(points[j])))
+
+// bounded: proved for up to 2 terms
+//@ func (*Point).VarTimeMultiScalarMult(v, scalars, points)
+//@   mode group
+//@   entrysplit len(scalars) in 0..3
+//@   entrysplit len(points) in 0..3
+//@   requires [bounded] len(scalars) < 3 && len(points) < 3
+//@   requires [scalars] forall j in 0..len(scalars): sinv(scalars[j])
+//@   requires [wf] forall j in 0..len(points): wf(points[j])
+//@   panics len(scalars) != len(points) || (exists j in 0..len(points): !init(points[j]))
+//@   assigns *v
+//@   loop 3 var i
+//@   loop 3 opt cut
+//@   loop 3 modifies *tmp1, *tmp2, *v, *multiple
+//@   loop 3 invariant [acc] pt(tmp2) == (gsum j in 0..len(points): smul(sum t in i + 1..256: nafs[j][t] * 2^(t - i - 1), pt(points[j])))
+//@   loop 3 invariant [valid] gvalid(tmp2)
+//@   ensures [receiver] result == v
+//@   ensures [valid] gvalid(v)
+//@   ensures [value] pt(v) == (gsum j in 0..len(points): smul(nval(scalars[j]), pt(points[j])))
